@@ -10,6 +10,9 @@ import (
 	"encoding/hex"
 	"fmt"
 	"io"
+	"os"
+	"path/filepath"
+	"strconv"
 	"strings"
 
 	"github.com/datastax/go-cassandra-native-protocol/compression/lz4"
@@ -90,6 +93,10 @@ func (c *countingReader) Read(p []byte) (int, error) {
 func run(c *mon.Ctx) {
 	c.Rule = "cases = the C01 case list x {none, LZ4, Snappy} x 7 paths (DecodeFrame; DecodeRawFrame+ConvertFromRawFrame; DecodeHeader+DecodeBody; DecodeHeader+DecodeRawBody; DecodeHeader+DiscardBody seekable and not; ConvertToRawFrame+EncodeRawFrame; EncodeHeader+EncodeBody), each from the same bytes followed by 32 sentinel bytes through a counting reader; plus single-byte / field mutations of valid encodings that still decode, for the re-encode clause; distinct = distinct (kind, version, shape, flags, value classes, compression) and distinct (kind, version, mutated offset class)"
 	c.Assume("internal/bridge FromLib normal form (N1-N9), extended for the re-encode clause of mutated inputs by N8 (non-positive page sizes = absent), as documented in DESIGN.md M3")
+	if len(c.Args) > 0 && c.Args[0] == "mutants-worker" {
+		mutants(c, c.Pick(150000, 4000000))
+		return
+	}
 	if c.Replay != "" {
 		var d struct {
 			ID   string `json:"id"`
@@ -111,7 +118,37 @@ func run(c *mon.Ctx) {
 	c.Set("shapes_enumerated", st.Shapes)
 	c.Set("random_cases", st.Random)
 	c.Note("paths phase done: %d evaluations", c.Evals())
-	mutants(c, c.Pick(150000, 4000000))
+	mutantsInChild(c)
+}
+
+// mutantsInChild runs the mutants phase in a child process: the structural pre-parse keeps damaged lengths away
+// from the library, but where it reads a corner differently from the library (one such corner was a defect of
+// the library, D30) a mutant can make the library allocate gigabytes. That must end the phase (inconclusive,
+// with the log), not the check.
+func mutantsInChild(c *mon.Ctx) {
+	dir, err := os.MkdirTemp("", "c05-mutants-")
+	if err != nil {
+		c.Fatal("tmp: %v", err)
+	}
+	defer os.RemoveAll(dir)
+	out := filepath.Join(dir, "mutants.json")
+	cmd := mon.WorkerCmd(mon.Self(), out, "--tier", c.Tier, "--seed", strconv.FormatInt(c.Seed, 10), "mutants-worker")
+	logp := filepath.Join(dir, "mutants.log")
+	logf, err := os.Create(logp)
+	if err != nil {
+		c.Fatal("log: %v", err)
+	}
+	cmd.Stdout, cmd.Stderr = logf, logf
+	runErr := cmd.Run()
+	logf.Close()
+	if runErr != nil || !c.Merge(out) {
+		head, _ := os.ReadFile(logp)
+		if len(head) > 600 {
+			head = head[:600]
+		}
+		c.Note("mutants phase: child did not finish (%v): %s", runErr, strings.ReplaceAll(string(head), "\n", " | "))
+		c.Inconclusive("mutants-phase/child-process-died")
+	}
 }
 
 func paths(c *mon.Ctx, cs gen.Case, id string) {
